@@ -23,6 +23,7 @@ class St:
     choice: str | None = None
     type: str = "v"
     reducers: dict = field(default_factory=dict)
+    parent: tuple | None = None  # (parent ref, "STAGE_BEFORE" | "STAGE_AFTER"): a synthetic child declared in the definition
     region: str | None = None  # cancel_region (WCP-25)
     milestone: tuple | None = None  # (milestone_ref_id, milestone_status) (WCP-18)
 
@@ -75,11 +76,21 @@ class Workload:
                     milestone_status=s.milestone[1] if s.milestone else None,
                 )
             )
+        from stabilize.models.stage import SyntheticStageOwner
+
+        byref = {x.ref_id: x for x in stages}
+        for sp in self.stages:
+            if sp.parent:
+                child = byref[sp.ref]
+                child.parent_stage_id = byref[sp.parent[0]].id
+                child.synthetic_stage_owner = SyntheticStageOwner[sp.parent[1]]
         wf = Workflow.create(application="verif", name=self.name, stages=stages, context=dict(self.wf_ctx))
         if any(s.type.startswith("vsyn") for s in self.stages):
             register_builders(world)
             if self.notes == "failpost":
                 world.behaviours[("post", "t")] = {"kind": "terminal"}
+            if self.notes == "failpre1":
+                world.behaviours[("pre1", "t")] = {"kind": "terminal"}
         return wf
 
     def plainly_succeeds(self):
@@ -494,6 +505,62 @@ def synthetic_multitask():
     """A -> S(type vsyn: before-stage 'pre', TWO own tasks, after-stage 'post') -> Z."""
     t = [("t1", {"kind": "ok", "out": {"x1": ("const", 1)}}), ("t2", {"kind": "ok", "out": {"x2": ("const", 2)}})]
     return Workload("synthetic_multitask", [St("A"), St("S", ("A",), type="vsyn", tasks=t), St("Z", ("S",))])
+
+
+def synthetic2_failpre():
+    """S (continue-on-failure) has two PARALLEL before-stages; pre1 fails, pre2 finishes later."""
+    return Workload("synthetic2_failpre", [St("A"), St("S", ("A",), type="vsyn2", ctx={"continuePipelineOnFailure": True}),
+                                           St("Z", ("S",))], notes="failpre1", klass="racy")
+
+
+def synthetic2_multitask():
+    """S has two PARALLEL before-stages and TWO own tasks (two ContinueParentStage messages meet two tasks)."""
+    t = [("t1", {"kind": "ok", "out": {"x1": ("const", 1)}}), ("t2", {"kind": "ok", "out": {"x2": ("const", 2)}})]
+    return Workload("synthetic2_multitask", [St("A"), St("S", ("A",), type="vsyn2", tasks=t), St("Z", ("S",))])
+
+
+def declared_after_fc():
+    """S's task ends FAILED_CONTINUE and S has an after-stage DECLARED in the workflow definition ; then Z."""
+    return Workload("declared_after_fc", [
+        St("A"), St("S", ("A",), ctx={"continuePipelineOnFailure": True}, tasks=[("t", {"kind": "failed_continue"})]),
+        St("post", parent=("S", "STAGE_AFTER")), St("Z", ("S",))], klass="racy")
+
+
+def declared_after_ok():
+    """like declared_after_fc, the task simply succeeds"""
+    return Workload("declared_after_ok", [St("A"), St("S", ("A",)), St("post", parent=("S", "STAGE_AFTER")), St("Z", ("S",))])
+
+
+def or_split_long():
+    """OR-split A -> B -> J ; A -> C -> C2 -> J (a two-stage activated branch) ; A -> D (deselected) -> J ; J is an OR join."""
+    return Workload(
+        "or_split_long",
+        [St("A", split="OR", split_conditions={"B": "go == True", "C": "go == True", "D": "go == False"},
+            tasks=[("t", {"kind": "ok", "out": {"go": ("const", True), "o_A": ("name",)}})]),
+         St("B", ("A",)), St("C", ("A",)), St("C2", ("C",)), St("D", ("A",)), St("J", ("B", "C2", "D"), join="OR")],
+    )
+
+
+def or_split_err():
+    """OR-split whose condition for C cannot be evaluated (compares a missing key): C is skipped, B runs, D joins."""
+    return Workload(
+        "or_split_err",
+        [St("A", split="OR", split_conditions={"B": "go == True", "C": "missing_score < 3"},
+            tasks=[("t", {"kind": "ok", "out": {"go": ("const", True), "o_A": ("name",)}})]),
+         St("B", ("A",)), St("C", ("A",)), St("D", ("B", "C"), join="OR")],
+    )
+
+
+def jump_back_multitask(times=1):
+    """A -> B (two tasks: t1 jumps back to A `times` times, t2 runs after the loop) -> C."""
+    mk = lambda r: [("t", {"kind": "ok", "out": _loop_out(r, "A")})]  # noqa: E731
+    return Workload(
+        f"jump_back_mt_t{times}",
+        [St("A", tasks=mk("A")),
+         St("B", ("A",), tasks=[("t1", {"kind": "jump", "target": "A", "times": times, "out": _loop_out("B", "A")}),
+                                ("t2", {"kind": "ok", "out": {"x2": ("const", 2)}})]),
+         St("C", ("B",), tasks=mk("C"))],
+    )
 
 
 def synthetic2():
